@@ -348,6 +348,16 @@ def weave_function(fn, path, src, edits, counter, census, loops=None):
             edits.append((lb, 0, -30000, PRE + '{ verif_loop_sync(%d); ' % s1 + POST))
             edits.append((le, 1, 30000, PRE + ' }' + POST))
             edits.append((be - 1, 0, -20000, PRE + 'verif_loop_sync(%d);' % (s1 + 1) + POST))
+            if k == 'DoStmt':
+                # do/while: the condition runs between the end of the body and the loop head; when it says "loop again" the
+                # snapshot is consumed there:  while ((C) && (verif_loop_sync(n), 1))
+                cb = file_off(inner[1]['range']['begin'], path)
+                ce = file_off(inner[1]['range']['end'], path, end=True)
+                if cb is None or ce is None:
+                    raise WeaveError('%s: condition of do/while loop %d is not literally in the file' % (name, ordinal))
+                s2 = counter[0]; counter[0] += 1
+                edits.append((cb, 0, -25000, PRE + '(' + POST))
+                edits.append((ce, 1, 25000, PRE + ') && (verif_loop_sync(%d), 1)' % s2 + POST))
             clause = (loops or {}).get(str(ordinal))
             if clause and '$LOCALS' in clause:
                 # every non-const local visible at the loop head may be assigned by the loop (keeps the frame robust against
